@@ -240,7 +240,7 @@ class Ref:
                         self.tags.add('oneof.candidate-none')
                     return r
                 self.maybe |= fr
-                self.failed_frames.append((('oneof', f'{consumer}.{kw}', idx), set(fr)))
+                self.failed_frames.append((('oneof', f'{consumer}.{kw}', idx), set(fr), c))
                 if any(s_[0] == 'oneof' for s_ in self.scope):
                     # contained by this one-of, but evaluated inside a candidate of an enclosing/downstream one-of
                     self.tags.add('oneof.candidate-failed-inside-other-candidate')
@@ -270,8 +270,15 @@ class Ref:
             if any(not oneof_ids(sc) for sc in scopes) and any(oneof_ids(sc) for sc in scopes):
                 # a node the main pipeline needs, which is also inside a one-of candidate's sub-pipeline, fails
                 self.tags.add('oneof.required-node-fails-also-inside-candidate')
-        for scope_id, touched_nodes in self.failed_frames:
+        for scope_id, touched_nodes, cand in self.failed_frames:
+            cone = {cand} | self.anc[cand]
+            failing = {f for f in self.own_failures if f in cone}
             for n in touched_nodes:
+                # the engine cancels the in-flight node n only if the failed candidate's launch loop wakes up while n is
+                # still running: some node of the candidate is a direct consumer of the failing node and does not wait for n
+                relay = any(self.deps[r] & failing and n != r and n not in self.anc[r] for r in cone)
+                if not relay or n in failing:
+                    continue
                 others = [sc for sc in self.requested.get(n, set()) if scope_id not in sc]
                 if others and all(oneof_ids(sc) for sc in self.requested.get(n, set())) \
                         and any({x[1] for x in oneof_ids(sc)} - {scope_id[1]} for sc in others):
